@@ -268,6 +268,37 @@ def check_density(case):
     require(mean >= 1 - 1e-9, f"grid mean {mean!r} < 1 after normalisation and clipping")
     if np.all(T > 0):
         require(abs(mean - 1) <= 1e-9, f"grid mean {mean!r} != 1 although nothing was clipped")
+    # "normalised to a grid mean of 1 before the clipping of negative estimates": rebuild the raw
+    # estimates from the documented counting grid and pydrex's own kernel functions, normalise,
+    # clip, and compare.  Skipped (labelled) if the returned grid is not the documented one.
+    labels_extra = []
+    rho, h = np.mgrid[-np.pi : np.pi : g * 1j, -1 : 1 : g * 1j]
+    phi_c = np.pi / 2 - rho.ravel()
+    th_c = np.pi / 2 - np.arcsin(h.ravel())
+    counters = np.column_stack([np.sin(th_c) * np.cos(phi_c), np.sin(th_c) * np.sin(phi_c), np.cos(th_c)])
+    Xc = np.sqrt(np.maximum(0.0, 1 - np.abs(counters[:, 2])) / np.maximum(counters[:, 0] ** 2 + counters[:, 1] ** 2, 1e-300)) * counters[:, 0]
+    Yc = np.sqrt(np.maximum(0.0, 1 - np.abs(counters[:, 2])) / np.maximum(counters[:, 0] ** 2 + counters[:, 1] ** 2, 1e-300)) * counters[:, 1]
+    if np.abs(Xc.reshape(g, g) - Xg).max() <= 1e-9 and np.abs(Yc.reshape(g, g) - Yg).max() <= 1e-9:
+        kern = S.SPHERICAL_COUNTING_KERNELS[case["kernel"]]
+        kw = {"axial": case["axial"]}
+        if case["kernel"] != "schmidt_count":
+            kw["σ"] = case["sigma"]
+        raw = np.empty(len(counters))
+        for ci, c in enumerate(counters):
+            prod = v @ c
+            if case["axial"]:
+                prod = np.abs(prod)
+            dens, scale = kern(prod, **kw)
+            raw[ci] = (np.sum(dens * case["weight"]) - 0.5) / scale
+        mraw = raw.mean()
+        if np.isfinite(mraw) and abs(mraw) > 1e-12 * max(np.abs(raw).max(), 1e-300):
+            expect = raw / mraw
+            expect[expect < 0] = 0
+            e = float(np.abs(T.ravel() - expect).max()) / max(expect.max(), 1.0)
+            require(e <= 1e-9, f"density is not the kernel estimate normalised to a grid mean of 1 before clipping (relative deviation {e:.3e}, {case['kernel']}, {int((raw / mraw < 0).sum())} negative estimates)", e)
+            labels_extra.append("normalisation_checked")
+    else:
+        labels_extra.append("grid_differs")
     rng = np.random.default_rng(case["perm"])
     vp = v[rng.permutation(len(v))]
     _, _, Tp = _density(vp, case)
@@ -283,29 +314,46 @@ def check_density(case):
         worst = max(worst, e)
     return {
         "nontrivial": case["n"] >= 10,
-        "labels": [case["kernel"], "axial" if case["axial"] else "polar", case["fam"], "clipped" if np.any(T == 0) else "unclipped"],
+        "labels": [case["kernel"], "axial" if case["axial"] else "polar", case["fam"], "clipped" if np.any(T == 0) else "unclipped"] + labels_extra,
         "residual": worst,
     }
 
 
-def _schmidt_sparse(case):
-    """True when no counting location of the grid lies within the 1% Schmidt cap of any
-    datum (coarse grid, few data): every raw count is zero and the normalisation is 0/0."""
+def _raw_totals(case):
+    """Raw (un-normalised) estimates on the documented counting grid, from pydrex's own kernel
+    functions: (sum of kernel values * weight - 0.5) / scale for every counting location."""
     v = _data(case)
     g = case["grid"]
     rho, h = np.mgrid[-np.pi : np.pi : g * 1j, -1 : 1 : g * 1j]
     phi = np.pi / 2 - rho.ravel()
     theta = np.pi / 2 - np.arcsin(h.ravel())
     c = np.column_stack([np.sin(theta) * np.cos(phi), np.sin(theta) * np.sin(phi), np.cos(theta)])
-    prod = v @ c.T
-    if case["axial"]:
-        prod = np.abs(prod)
-    return not np.any((1 - prod) <= 0.01 + 1e-12)
+    kern = S.SPHERICAL_COUNTING_KERNELS[case["kernel"]]
+    kw = {"axial": case["axial"]}
+    if case["kernel"] != "schmidt_count":
+        kw["σ"] = case["sigma"]
+    raw = np.empty(len(c))
+    with np.errstate(all="ignore"):
+        for ci, cc in enumerate(c):
+            prod = v @ cc
+            if case["axial"]:
+                prod = np.abs(prod)
+            dens, scale = kern(prod, **kw)
+            raw[ci] = (np.sum(dens * case["weight"]) - 0.5) / scale
+    return raw, c
 
 
 def classify_density(case):
-    if case["kernel"] == "schmidt_count" and _schmidt_sparse(case):
-        return "schmidt_count:no_counter_sees_data"
+    """'zero_grid_mean': the raw estimates average to zero over the grid (e.g. no counting
+    location sees any datum, or every location sees exactly the expected count), so the
+    normalisation to unit mean is 0/0 - a known finding; otherwise the kernel name."""
+    try:
+        raw, _ = _raw_totals(case)
+        m = raw.mean()
+        if not np.isfinite(m) or abs(m) <= 1e-12 * max(np.abs(raw).max(), 1e-300):
+            return "zero_grid_mean"
+    except Exception:  # noqa: BLE001
+        pass
     return case["kernel"]
 
 
@@ -371,7 +419,7 @@ ORACLES = [
         density_case(),
         check_density,
         classify=classify_density,
-        known_models={"schmidt_count:no_counter_sees_data": check_density_known_sparse},
+        known_models={"zero_grid_mean": check_density_known_sparse},
         quick=80,
         thorough=400,
     ),
